@@ -113,14 +113,16 @@ def group_scenarios(rng, tier):
             perms = perms[:8]
         out.append({"kind": kind, "names": names, "perms": perms, "bound": None})
     # boundaries inside: two runs separated by a blank line / another item / #[macro_use] / skip
-    for bound in ("blank", "item", "macro_use", "skip"):
+    for bound in ("blank", "item", "macro_use", "skip", "macro_use_list", "macro_use_mod",
+                  "macro_use_list_mod"):
         names = ["d", "c", "b", "a"]
         perms = [p for p in itertools.permutations(range(4))]
         if tier == "quick":
             rng.shuffle(perms)
             perms = perms[:6]
-        out.append({"kind": "use" if bound != "macro_use" else "extern", "names": names,
-                    "perms": perms, "bound": bound})
+        kind_ = {"macro_use": "extern", "macro_use_list": "extern", "macro_use_mod": "mod",
+                 "macro_use_list_mod": "mod"}.get(bound, "use")
+        out.append({"kind": kind_, "names": names, "perms": perms, "bound": bound})
     # the boundaries of mod / extern crate runs hold under every group_imports setting (the
     # option regroups `use` declarations only)
     for kind in ("mod", "extern"):
@@ -160,6 +162,9 @@ def render_group(scn, perm):
         if bound and k == half:
             lines.append({"blank": "", "item": "fn boundary_item() {}",
                           "macro_use": "#[macro_use]\nextern crate boundary_mu;",
+                          "macro_use_list": "#[macro_use(debug, info)]\nextern crate boundary_mu;",
+                          "macro_use_mod": "#[macro_use]\nmod boundary_mu;",
+                          "macro_use_list_mod": "#[macro_use(debug)]\nmod boundary_mu;",
                           "skip": "#[rustfmt::skip]\nuse   zz_skipped::{b,a};"}[bound])
         att = "attr" if (hash(nm) % 5 == 0 and kind == "use" and " as " not in nm) else None
         lines.append(decl(kind, nm, att))
@@ -272,6 +277,9 @@ def run(tier, seed, replay=None):
                         group[i] = 1 if k_ < half else 2
                     marker = {"blank": None, "item": "fn boundary_item() {}",
                               "macro_use": "extern crate boundary_mu;",
+                              "macro_use_list": "extern crate boundary_mu;",
+                              "macro_use_mod": "mod boundary_mu;",
+                              "macro_use_list_mod": "mod boundary_mu;",
                               "skip": "use   zz_skipped::{b,a};"}[scn["bound"]]
                     if marker and marker not in out:
                         bounds_ok = False
